@@ -88,7 +88,7 @@ def plan(tier: str, rnd: random.Random) -> list[dict]:
     logs = {f: ls for f, ls in logs.items() if ls}
     names = sorted(logs)
     big = 320 if tier == "quick" else 2000
-    per_log = 1 if tier == "quick" else 6
+    per_log = 2 if tier == "quick" else 10
     out: list[dict] = []
     for f in names:
         base = logs[f]
@@ -154,7 +154,7 @@ def main(tier: str, replay: str | None) -> None:
 
     pid, sid = X.Interner(), X.Interner()
     hist = plan(tier, rnd)
-    items, _ = vloop.run(lambda: run_all(hist, pid, sid, 45 if quick else 700))
+    items, _ = vloop.run(lambda: run_all(hist, pid, sid, 50 if quick else 800))
     hist = hist[: len(items)]
 
     # the model's out-of-order counter-example, concretised
@@ -190,7 +190,7 @@ def main(tier: str, replay: str | None) -> None:
     rej = dict(res["rejects"])
     if canary:
         got = rej.pop(len(items), ())
-        if not any(str(f[1]).startswith("C16a:packets-lost") for f in got):
+        if not any(str(f[1]).startswith("C16a:packets-lost") or str(f[1]).startswith("C16a:only-expired") for f in got):
             raise tlc.MachineryFailure(f"canary (dropped packet) not rejected: {got}")
 
     n_ops = sum(len(i["ops"]) for i in items)
